@@ -854,8 +854,8 @@ func t7idVal(av *otlpcommon.AnyValue, where string, seen map[uintptr]string, dep
 				return d
 			}
 			vs := w.ArrayValue.Values
-			if len(vs) > 0 {
-				if d := t7note(seen, &vs[0], where+":arr[]"); d != "" {
+			if cap(vs) > 0 { // the backing array, also of an emptied slice that kept its capacity
+				if d := t7note(seen, &vs[:1][0], where+":arr[]"); d != "" {
 					return d
 				}
 			}
@@ -872,8 +872,8 @@ func t7idVal(av *otlpcommon.AnyValue, where string, seen map[uintptr]string, dep
 }
 
 func t7idKVs(kvs []otlpcommon.KeyValue, where string, seen map[uintptr]string, depth int) string {
-	if len(kvs) > 0 {
-		if d := t7note(seen, &kvs[0], where+":kv[]"); d != "" {
+	if cap(kvs) > 0 {
+		if d := t7note(seen, &kvs[:1][0], where+":kv[]"); d != "" {
 			return d
 		}
 	}
@@ -891,6 +891,11 @@ func t7idMap(m pcommon.Map, where string, seen map[uintptr]string) string {
 
 func t7identities(ld Logs, where string, seen map[uintptr]string) string {
 	rls := ld.ResourceLogs()
+	if cap(*rls.orig) > 0 {
+		if d := t7note(seen, &(*rls.orig)[:1][0], where+":rl[]"); d != "" {
+			return d
+		}
+	}
 	for i := 0; i < rls.Len(); i++ {
 		wi := fmt.Sprint(where, "/", i)
 		if d := t7note(seen, (*rls.orig)[i], wi); d != "" {
@@ -901,6 +906,11 @@ func t7identities(ld Logs, where string, seen map[uintptr]string) string {
 			return d
 		}
 		sls := rl.ScopeLogs()
+		if cap(*sls.orig) > 0 {
+			if d := t7note(seen, &(*sls.orig)[:1][0], wi+"/1:sl[]"); d != "" {
+				return d
+			}
+		}
 		for j := 0; j < sls.Len(); j++ {
 			wj := fmt.Sprint(wi, "/1/", j)
 			if d := t7note(seen, (*sls.orig)[j], wj); d != "" {
@@ -911,6 +921,11 @@ func t7identities(ld Logs, where string, seen map[uintptr]string) string {
 				return d
 			}
 			lrs := sl.LogRecords()
+			if cap(*lrs.orig) > 0 {
+				if d := t7note(seen, &(*lrs.orig)[:1][0], wj+"/1:lr[]"); d != "" {
+					return d
+				}
+			}
 			for k := 0; k < lrs.Len(); k++ {
 				wk := fmt.Sprint(wj, "/1/", k)
 				if d := t7note(seen, (*lrs.orig)[k], wk); d != "" {
